@@ -276,6 +276,11 @@ func diffCodec(w *bufio.Writer, n int, seed int64) {
 		fmt.Fprintf(w, "D 0 roundtrip %d %s => b:%v # -\n", i, strings.ReplaceAll(string(mustJSON(map[string]any{"id": id, "payload": p})), " ", "%20"), ok)
 	}
 	typedRoundTrips(w, n)
+	// a payload that cannot be encoded is rejected at submission with no effect
+	for k := 0; k < 4; k++ {
+		ok, enq, items, sub, pend := varmq.VerifAddUnencodable(k)
+		fmt.Fprintf(w, "D 0 unencodable %d => r:%v,%d,%d,%d,%d # -\n", k, ok, enq, items, sub, pend)
+	}
 }
 
 // typedRoundTrips: payload types other than `any` (the zero / empty values are where struct tags and
